@@ -21,8 +21,12 @@ import (
 
 // registerNode authorizes an identity on the server through the real operator flow and optionally assigns a node ID
 // (the application sets NodeId on the stored record, as Boundary does).
-func registerNode(r *kernel.Run, w *World, id *Ident, nodeID string) *types.NodeInformation {
-	req, _ := BuildFetch(HonestSpec(id))
+func registerNode(r *kernel.Run, w *World, id *Ident, nodeID string, prevPkix ...[]byte) *types.NodeInformation {
+	sp := HonestSpec(id)
+	if len(prevPkix) > 0 {
+		sp.PrevPkix = prevPkix[0] // the record names the certificate key this node used before its last rotation
+	}
+	req, _ := BuildFetch(sp)
 	ni, err := registration.AuthorizeNode(w.Ctx, w.Storage, req, w.Opts()...)
 	if err != nil {
 		r.HarnessErr("authorize %s: %v", id.Name, err)
@@ -54,10 +58,18 @@ func propC05(r *kernel.Run) {
 	}
 	// records: 1-4 under node ID "N", 0-2 under "M", 0-1 without node id, plus an unregistered identity
 	nN := tp.Range(1, 4)
-	var underN, underM, plain []*Ident
+	var underN, underM, plain, retired []*Ident
 	for i := 0; i < nN; i++ {
 		id := NewIdent(fmt.Sprintf("N%d", i))
-		registerNode(r, w, id, "node-N")
+		if tp.Draw(3) == 0 {
+			// this record is the product of a credential rotation: it names the previous certificate key, whose own record
+			// has since been retired. The retired key is just another unregistered key.
+			old := NewIdent(fmt.Sprintf("retired-predecessor-of-N%d", i))
+			retired = append(retired, old)
+			registerNode(r, w, id, "node-N", old.Pkix)
+		} else {
+			registerNode(r, w, id, "node-N")
+		}
 		underN = append(underN, id)
 	}
 	for i := 0; i < tp.Draw(3); i++ {
@@ -120,6 +132,7 @@ func propC05(r *kernel.Run) {
 		// who claims to connect (certificate key in the request)
 		claimPool := append(append(append([]*Ident{}, underN...), underM...), plain...)
 		claimPool = append(claimPool, unreg)
+		claimPool = append(claimPool, retired...)
 		claim := claimPool[tp.Draw(len(claimPool))]
 		signerPool := append(append([]*Ident{}, claimPool...), nil) // nil = no signature
 		nonceSigner := signerPool[tp.Draw(len(signerPool))]
